@@ -237,33 +237,41 @@ def _limits_storage(ctx, prog):
     ctors = [b for p, b in prog.bodies.items() if b.kind != 'Closure' and b.local_ty(0).endswith('kinematics_impl::OPWKinematics') and
              (b.raw.get('impl_self') or '').endswith('OPWKinematics') and not b.raw.get('impl_trait')]
     n = 0
+    flds = None
+    for b in ctors:
+        for i, j, st in b.stmts():
+            if st['rv']['k'] == 'agg' and isinstance(st['rv'].get('kind'), dict) and (st['rv']['kind'].get('adt') or '').endswith('kinematics_impl::OPWKinematics'):
+                flds = flds or st['rv']['kind'].get('fields')
+    ctx.require(bool(flds), 'a constructor of the solver that builds it from its fields')
     for b in ctors:
         tys = [b.local_ty(i) for i in range(1, b.arg_count + 1)]
-        aggs = [(i, j, st) for i, j, st in b.stmts() if st['rv']['k'] == 'agg' and isinstance(st['rv'].get('kind'), dict) and
-                (st['rv']['kind'].get('adt') or '').endswith('kinematics_impl::OPWKinematics')]
-        if not aggs:
-            continue                      # delegates to another constructor
         ctx.fn(b)
-        for i, j, st in aggs:
-            flds = st['rv']['kind'].get('fields') or []
-            t = b.rv_term(st['rv'], (i, j))
+        name = b.path.split('::')[-1]
+        cpos = [k + 1 for k, ty in enumerate(tys) if ty.endswith('constraints::Constraints')]
+        opos = [k + 1 for k, ty in enumerate(tys) if ty.endswith('constraints::Constraints>') and 'Option<' in ty]
+        ppos = [k + 1 for k, ty in enumerate(tys) if ty.endswith('Parameters')]
+        for t0, d, rb in b.return_values():
+            # a constructor that delegates to a shared one is read with the shared one substituted
+            t = strip(util.inline_calls(prog, t0, depth=3))
+            if not (isinstance(t, tuple) and t[0] == 'agg' and str(t[1]).endswith('kinematics_impl::OPWKinematics') and len(t) - 2 == len(flds)):
+                raise MachineryError('the value returned by the constructor %s is not readable as the solver built from its fields: %s' % (name, show(t, maxdepth=3)))
             vals = dict(zip(flds, t[2:]))
             n += 1
-            name = b.path.split('::')[-1]
-            cpos = [k + 1 for k, ty in enumerate(tys) if ty.endswith('constraints::Constraints')]
-            ppos = [k + 1 for k, ty in enumerate(tys) if ty.endswith('Parameters')]
             c = strip(vals.get('constraints'))
             if cpos:
                 ok = isinstance(c, tuple) and c[0] == 'agg' and 'Some' in str(c[1]) and util.is_param(c[2], cpos[0])
                 want = 'Some(the limits argument)'
+            elif opos:
+                ok = util.is_param(c, opos[0])
+                want = 'the optional limits argument as it is'
             else:
                 ok = isinstance(c, tuple) and c[0] == 'agg' and 'None' in str(c[1])
                 want = 'None'
-            ctx.check(ok, 'R08.5', name + '/limits-stored', b.where(i, j), b.path, 'the constructor must store %s as the limits of the solver' % want,
+            ctx.check(ok, 'R08.5', name + '/limits-stored', b.where(0), b.path, 'the constructor must store %s as the limits of the solver' % want,
                       found=show(c, maxdepth=3), expected=want)
             if ppos:
                 pv = strip(vals.get('parameters'))
-                ctx.check(util.is_param(pv, ppos[0]), 'R08.5', name + '/parameters-stored', b.where(i, j), b.path,
+                ctx.check(util.is_param(pv, ppos[0]), 'R08.5', name + '/parameters-stored', b.where(0), b.path,
                           'the constructor must store the parameters it is given', found=show(pv, maxdepth=3))
     ctx.floor('R08.5 constructors', n, 2)
     acc = prog.trait_impl_method('kinematics_impl::OPWKinematics', 'Kinematics', 'constraints')
